@@ -981,9 +981,12 @@ class PureScheduler:                                    # pylint: disable=r0902
                              force=True)
         # clean up
         await self._feedback(pending, "ABORTING")
+        # record the verdict first: if we get cancelled during the clean up
+        # (nested scheduler whose enclosing scheduler ends in the meanwhile),
+        # the lines below are not reached
+        self._failed_timeout = self.timeout
         await self._tidy_tasks(pending)
         await self.co_shutdown()
-        self._failed_timeout = self.timeout
         return False
 
     async def _co_run(self):                      # pylint: disable=R0912,R0915
